@@ -1,6 +1,8 @@
 (* Case decoder / result encoder for property C11 (same language in harness/src/c11.rs and
    tools/props/c11.py).  Element type: integers (i64 on the Rust side).
 
+     (11 2 S S (i ...))    ->  ((b ...) (b ...) (b ...))   Slice::accepts(i) of the two slices and
+                                  Slice2D{rows: S, columns: S}.accepts(i, i'), i' the next probe (cyclic)
      (11 1 start (op ...))
        start:  (0 (row ...))      Matrix::from(vec of vecs)      row = (v ...)
                (1 r c (v ...))    Matrix::from_flat_row_major((r, c), values)
@@ -22,6 +24,9 @@
                (10 r c v)         set
                (11 k)             map_mut(|x| x + k)
                (12 k)             map_mut_with_index(|x, i, j| x + k * (10 * i + j + 1))
+               (13 (rp) (cp) k v) { let mut parts = m.partition(&rp, &cp); every cell of part k
+                                  (if there is one) is overwritten with v } — the borrow ends,
+                                  the same matrix is used on; 2 = partition panicked
        S:      (0) All  (1) None  (2 i) Single  (3 a b) Range(a..b)  (4 S) Not  (5 S S) And
                (6 S S) Or
 
@@ -34,7 +39,7 @@
              column_major_iter(); the stored data (parsed from the Debug output);
              e = (v) or () where the read panicked *)
 From Coq Require Import List ZArith NArith Bool.
-From EasyML Require Import Base.Sx Model.Matrix.
+From EasyML Require Import Base.Sx Model.Matrix Model.MatrixHistory.
 Import ListNotations.
 Local Open Scope N_scope.
 
@@ -85,6 +90,16 @@ Definition dop (s : sx) : option (op Z) :=
   | _ => None
   end.
 
+Definition dxop (s : sx) : option (xop Z) :=
+  match s with
+  | SL [SZ 13%Z; rp; cp; k; v] =>
+      match dlist dN rp, dlist dN cp, dnat k, dZ v with
+      | Some rp, Some cp, Some k, Some v => Some (XPartitionFill rp cp k v)
+      | _, _, _, _ => None
+      end
+  | _ => option_map XOp (dop s)
+  end.
+
 Definition dstart (s : sx) : option (outcome (matrix Z)) :=
   match s with
   | SL [SZ 0%Z; rows] => option_map from_rows (dlist (dlist dZ) rows)
@@ -117,17 +132,35 @@ Definition sobs (m : matrix Z) : sx :=
        slist (sopt SZ) (obs_column_major m);
        slist SZ (m_data m) ].
 
-Definition c11_history (start : outcome (matrix Z)) (ops : list (op Z)) : sx :=
+Definition c11_history (start : outcome (matrix Z)) (ops : list (xop Z)) : sx :=
   soutcome (fun m =>
-    SL (sobs m :: map (fun r : matrix Z * bool => SL [SZ (if snd r then 0 else 2)%Z; sobs (fst r)]) (impl_trace m ops)))
+    SL (sobs m :: map (fun r : matrix Z * bool => SL [SZ (if snd r then 0 else 2)%Z; sobs (fst r)]) (xtrace m ops)))
     start.
+
+Fixpoint rotate_pairs (first : N) (l : list N) : list (N * N) :=
+  match l with
+  | [] => []
+  | [x] => [(x, first)]
+  | x :: ((y :: _) as rest) => (x, y) :: rotate_pairs first rest
+  end.
+
+Definition c11_accepts (a b : slice) (probes : list N) : sx :=
+  SL [ slist sbool (map (slice_accepts a) probes);
+       slist sbool (map (slice_accepts b) probes);
+       slist sbool (map (fun p => slice2d_accepts (mkSlice2D a b) (fst p) (snd p))
+                        (rotate_pairs (hd 0 probes) probes)) ].
 
 Definition run_c11 (args : list sx) : sx :=
   match args with
   | [SZ 1%Z; start; ops] =>
-      match dstart start, dlist dop ops with
+      match dstart start, dlist dxop ops with
       | Some start, Some ops => c11_history start ops
       | _, _ => bad_case
+      end
+  | [SZ 2%Z; a; b; probes] =>
+      match dslice a, dslice b, dlist dN probes with
+      | Some a, Some b, Some probes => c11_accepts a b probes
+      | _, _, _ => bad_case
       end
   | _ => bad_case
   end.
